@@ -123,6 +123,7 @@ class Canon:
                 c = _callee(n)
                 if c and self.inlinable(c) is not None:
                     self.run_fn(self.fns[c], stack + (p,))
+            self.flatten_blocks(body)
             # a closure whose whole body is a helper call: give it a block so the helper's statements can be spliced
             for n in list(_walk(body)):
                 if n.get("k") == "Closure" and isinstance(n.get("body"), dict):
@@ -136,6 +137,7 @@ class Canon:
                     if n.get("k") == "Block" and n is not body:
                         self.inline_block(n, f)
                 self.inline_exprs(body, f)
+            self.flatten_blocks(body)
             self.beta_reduce(body)
             self.assign_forms(body)
             self.match_ints(body)
@@ -519,6 +521,30 @@ class Canon:
             n["canon"] = "x = x op e"
             self.stats["assign_forms"] += 1
 
+    # ------------------------------------------------------------------ P10
+    def flatten_blocks(self, body):
+        """A plain `{ .. }` statement (what a destructuring assignment `(a, b) = f();` desugars to, or a scope a maintainer
+        added) is spliced into the enclosing statement list: bindings are identified by id, so scopes carry no meaning here."""
+        again = True
+        while again:
+            again = False
+            for blk in [n for n in _walk(body) if n.get("k") == "Block"]:
+                out = []
+                ch = False
+                for st in blk.get("stmts", []):
+                    e = st.get("e") if st.get("k") in ("Semi", "Expr") else None
+                    if isinstance(e, dict) and e.get("k") == "Block" and not e.get("m") and not e.get("label") and not e.get("unsafe") and \
+                            (e.get("stmts") or e.get("expr") is not None) and str(e.get("ty", "()")) in ("()", "!"):
+                        out.extend(e.get("stmts", []))
+                        if e.get("expr") is not None:
+                            out.append({"k": "Semi", "e": e["expr"], "sp": e["expr"].get("sp")})
+                        ch = True
+                    else:
+                        out.append(st)
+                if ch:
+                    blk["stmts"] = out
+                    again = True
+
     # ------------------------------------------------------------------ P9
     def beta_reduce(self, body):
         """`let f = |a, b| e; .. f(x, y) ..`  ->  `.. e[a := x, b := y] ..` for an immutable, expression-bodied closure
@@ -815,14 +841,17 @@ class Canon:
                 loop = {"k": "For", "pat": cl["params"][0], "iter": src,
                         "body": {"k": "Block", "stmts": [{"k": "Semi", "e": push, "sp": list(push["sp"])}], "id": self._id(), "ty": "()", "sp": list(cl.get("sp") or csp)},
                         "id": self._id(), "ty": "()", "sp": [csp[0], csp[1] + 0.0005, csp[2], csp[3]], "canon": "collect-loop"}
-                # is the source something P3 can turn into an index loop?  (otherwise leave the statement alone)
-                probe = copy.deepcopy(loop)
-                before = self.stats["iterator_loops"]
-                self._iter_loop(probe)
-                ok = self.stats["iterator_loops"] > before
-                self.stats["iterator_loops"] = before
-                if not ok:
-                    continue
+                # is the source a plain range, or something P3 can turn into an index loop?  (otherwise leave the statement alone)
+                if _strip(src).get("k") == "Range" and cl["params"][0].get("k") == "Bind":
+                    loop["iter"] = _strip(src)
+                else:
+                    probe = copy.deepcopy(loop)
+                    before = self.stats["iterator_loops"]
+                    self._iter_loop(probe)
+                    ok = self.stats["iterator_loops"] > before
+                    self.stats["iterator_loops"] = before
+                    if not ok:
+                        continue
                 st["pat"] = dict(st["pat"], mut=True)
                 st["init"] = {"k": "Call", "f": {"k": "Def", "dk": "AssocFn", "fn": "std::vec::Vec<T>::new", "fn_local": False, "id": self._id(), "ty": "fn", "sp": list(csp)},
                               "args": [], "id": self._id(), "ty": vty, "sp": list(csp)}
